@@ -19,7 +19,7 @@ import Babble.Model.Hashgraph
 namespace Babble.Props.C06
 open Babble Babble.Vote
 
-variable {W : Type} [DecidableEq W] [Fintype W]
+variable {W : Type} [DecidableEq W]
 
 /-- if every witness of level d votes b, a witness of the next level decides b provided that level is
     a normal round -/
